@@ -2,6 +2,7 @@
 C17 — Traversal APIs agree and honour the visitor protocol.
 -/
 import MstVerif.Proofs.Traverse
+import MstVerif.Proofs.Protocol
 
 namespace Mst.Props
 open Mst
@@ -39,6 +40,13 @@ theorem C17_protocol_node (lt : Pg K V D) (k : K) (v : V) (tl : Nd K V D) :
     traceNd (.cons lt k v tl) =
       [Event.preNode k v] ++ tracePg false lt ++ [Event.visitNode k v, Event.postNode k v] ++ traceNd tl := by
   simp [traceNd]
+
+/-- The nesting protocol as an independent grammar (`IsPageTrace`, Protocol.lean): the full callback
+sequence of every traversal is: page entry (flagged iff reached through a high-page link), then
+for each of the page's keys pre-visit / the key's lower subtree (an unflagged page trace, if any) /
+visit / post-visit, then page exit, then the flagged trace of the high page, if any. -/
+theorem C17_protocol (high : Bool) (p : Pg K V D) : IsOptPageTrace high (tracePg high p) :=
+  tracePg_wellformed high p
 
 /-- Non-vacuity (test): a two-level tree with a high page; stop index 3. -/
 example :
